@@ -5,6 +5,8 @@ CONSTANTS Kind = "stream"
           Credits = {1, 2}
           MaxGrants = 1
           HasPub = TRUE
+          Slot = 0
+          SidOff = 0
           LibSource = FALSE
 INVARIANT NoClauseFails
 INVARIANT DeliveredIsPrefixOfHanded
